@@ -152,12 +152,23 @@ func (d *monPartial) BodyNonAtomic(ctx context.Context, sc module.StatusCollecto
 		return
 	}
 	s.Stat("status_collector_calls")
+	// (a recipient list may name an address twice: one result per acceptance)
+	want := map[string]int{}
+	var order []string
 	for _, r := range d.accepted {
+		if want[r] == 0 {
+			order = append(order, r)
+		}
+		want[r]++
+	}
+	for _, r := range order {
 		switch n := seen[r]; {
 		case n == 0:
 			s.Violate(d.m.Prop+"/status-missing/"+d.m.Label+"/"+addrClassOf(r)+"/"+reuse, "transaction %d on %s: no result reported for accepted recipient %q; reported keys: %v", d.n, d.m.Label, r, keys)
-		case n > 1:
-			s.Violate(d.m.Prop+"/status-duplicate/"+d.m.Label, "transaction %d on %s: %d results reported for %q", d.n, d.m.Label, n, r)
+		case n < want[r]:
+			s.Violate(d.m.Prop+"/status-missing/"+d.m.Label+"/repeated-recipient/"+reuse, "transaction %d on %s: recipient %q was accepted %d times but got %d result(s)", d.n, d.m.Label, r, want[r], n)
+		case n > want[r]:
+			s.Violate(d.m.Prop+"/status-duplicate/"+d.m.Label, "transaction %d on %s: %d results reported for %q (accepted %d time(s))", d.n, d.m.Label, n, r, want[r])
 		}
 	}
 	for _, k := range keys {
